@@ -67,6 +67,9 @@ class KernelRun:
         self.exotic = exotic
         self.keep_dumps = False
         self.decls: dict = {}
+        self.observers: list = []  # callables (run, op, line, answer) invoked inside a transaction after each op
+        self.legal: list[bool] = []  # per op: reachable through the director's interface
+        self._legal_now = True
         self.dumps: list[list[str]] = []
 
     # -- plumbing ----------------------------------------------------------------------------
@@ -94,13 +97,25 @@ class KernelRun:
         self.lines.append(line)
         self.impl.append(ans)
         self.ops.append(line.split(" ")[1])
+        await self.notify()
         return ans
 
     def _digest(self) -> str:
         lines = kdump.dump_lines(self.wf)
         if self.keep_dumps:
             self.dumps.append(lines)
+        self.legal.append(self._legal_now and not self.exotic)
+        self._legal_now = True
+        self._last_dump = lines
         return str(kdump.fnv1a("\n".join(lines)))
+
+    async def notify(self):
+        """Call the observers for the request that was just recorded (inside one transaction)."""
+        if not self.observers:
+            return
+        async with self.wf.db:
+            for obs in self.observers:
+                obs(self, self.ops[-1], self.lines[-1], self.impl[-1])
 
     async def dump(self) -> list[str]:
         async with self.wf.db:
@@ -154,6 +169,7 @@ class KernelRun:
         self.lines.append(line)
         self.impl.append(f"ok - {d}")
         self.ops.append("reset")
+        await self.notify()
 
     def pick_paths(self, n_choices=(0, 1, 1, 2)):
         r = self.r
@@ -177,6 +193,7 @@ class KernelRun:
                 if not pool:
                     return
                 creator = r.choice(pool)
+                self._legal_now = creator in running
             ckind, clabel = "step", creator
             detached_known = await self.q(lambda: [l for l in self.decls if wf.find(Step, l) is not None
                                                    and wf.find(Step, l).is_detached()])
@@ -352,6 +369,7 @@ class KernelRun:
         self.lines.append(f"k pop {choice}")
         self.impl.append(ans)
         self.ops.append("pop")
+        await self.notify()
         return ans
 
     async def step_op(self, op, step, *extra, fn=None, result=lambda v: "-"):
@@ -440,6 +458,7 @@ class KernelRun:
         self.lines.append(f"k {op}")
         self.impl.append(ans)
         self.ops.append(op)
+        await self.notify()
 
     async def end_phase(self):
         from stepup.core.finalize import revert_optional_steps
@@ -459,6 +478,7 @@ class KernelRun:
                 ans += " " + self._digest()
             self.impl.append(ans)
             self.ops.append("update_meta")
+            await self.notify()
             await self.coro_op("revert_optional", lambda: revert_optional_steps(wf, SilentReporter()))
         await self.simple("delete_detached", lambda: wf.delete_detached())
         wf.to_be_deleted.clear()
@@ -483,6 +503,7 @@ class KernelRun:
             async with wf.db:
                 self.impl.append("ok - " + self._digest())
             self.ops.append("setenv")
+            await self.notify()
             await self.coro_op("rescan_env", lambda: rescan_env_vars(wf, SilentReporter()))
         await self.simple("reconcile", lambda: wf.reconcile_targets())
 
